@@ -4,6 +4,7 @@ CONSTANTS
   NCells = 1
   Kind = "xcube"
   LabelRule = "prepend"
+  LabelStore = "local"
 INVARIANT InBounds
 INVARIANT OneTaskPerBlock
 INVARIANT LabelIsData
